@@ -172,7 +172,7 @@ class Schema(ResolverMap):
                         "Cannot replace specified type %s" % original_type
                     )
 
-                busted_cache = new_type != original_type
+                busted_cache = busted_cache or new_type != original_type
 
                 if new_type is None:
                     del self.types[type_name]
@@ -197,8 +197,13 @@ class Schema(ResolverMap):
                     )
 
             if new_directive is None:
+                busted_cache = True
                 del self.directives[directive_name]
             else:
+                busted_cache = (
+                    busted_cache
+                    or self.directives.get(directive_name) != new_directive
+                )
                 self.directives[directive_name] = new_directive
 
         # We can safely ignore the potential type error given that if the type
